@@ -27,3 +27,6 @@ META = {
   "technique": "runtime monitor: exact linear shadow samples + pull-counting "
                "probes on coefficient streams vs per-sample recursion oracle",
 }
+
+# EXTENSION families added after the seeded-change rounds
+META["rule"] += (" Added after the seeded-change rounds: " '30% of the shapes are sparse and wide (delays up to 14, several streams); coefficient streams also built directly on itertools.repeat / lazy_itertools.repeat; pull counts at the end of the input' ".")
